@@ -232,11 +232,12 @@ def _accept(ob: dict, rkth: Optional[bytes], image: Optional[bytes] = None) -> d
 
 
 def _decrypt_clause(case: dict, ob: dict, r: dict, tag: str) -> list:
-    """Plaintext reference: the same configuration built as 'signed' (no IV dimension there)."""
+    """Plaintext reference: the same configuration built as 'signed' from the configuration (no IV there).
+    The model decrypts with the IV found in the image, whatever its source (explicit / chosen by the builder)."""
     V = []
     if "plaintext" not in r:
         return [("C02.decrypt", f"{tag};no-key", "model could not decrypt: no key")]
-    c2 = dict(case, auth="signed", opts={k: v for k, v in case.get("opts", {}).items() if k != "iv"})
+    c2 = dict(case, auth="signed", opts={k: v for k, v in case.get("opts", {}).items() if k not in ("iv", "api")})
     c2.pop("classify", None)
     try:
         ob2 = M.execute(c2, workdir() + "-ref", case.get("seed", 0), want=())
@@ -308,6 +309,9 @@ def run(ctx) -> None:
                    "<= 0x200 bytes payload, of one bit in every byte (lattice cases with <= 1 "
                    "departure), else first / middle / last byte of every region")
                 + ". distinct/non-trivial = SHA-1 of an exported image the builder accepted")
+    ctx.rule += ("; option dimensions include the source of builder-chosen values: counter IV explicit / omitted in the "
+                 "configuration / omitted in the class-constructor API (owned RNG keeps exports reproducible), and the "
+                 "API used to hand over the settings (load_from_config / class constructor)")
     ctx.assumptions += [
         "the ROM model is written from the format crib / schema texts and calibrated on the repository's golden "
         "images; what a device knows (TrustZone block size, certificate block kind, HMAC header, manifest CRC) "
